@@ -2,11 +2,11 @@ SETUP_CMD = './setup.sh'
 HOOKS = dict(guard='--cfg rbpf_verif', enable='RUSTFLAGS="--cfg rbpf_verif" (set by engine/driver.py when it builds /verif/driver against /repo)',
              baseline_off_cmd='cd /repo && cargo test --workspace --no-fail-fast --offline', source_commits=[], add_only=True)
 ENGINES = [
- dict(name='mirsym', path='engine/mirsym.py', serves_properties=['C01', 'C02', 'C05', 'C06'], kind_free_text='symbolic executor for rustc MIR text -> z3 (bit-vector + array theory)'),
- dict(name='x86sym', path='engine/x86sym.py', serves_properties=['C03'], kind_free_text='symbolic executor for the x86-64 subset emitted by src/jit.rs'),
+ dict(name='mirsym', path='engine/mirsym.py', serves_properties=['C01', 'C02', 'C05', 'C06', 'C07', 'C08', 'C09', 'C10', 'C12', 'C13', 'C14', 'C15', 'C16', 'C17', 'C18', 'C19', 'C20'], kind_free_text='symbolic executor for rustc MIR text -> z3 (bit-vector + array theory)'),
+ dict(name='x86sym', path='engine/x86sym.py', serves_properties=['C03', 'C07', 'C08', 'C09', 'C18'], kind_free_text='symbolic executor for the x86-64 subset emitted by src/jit.rs'),
  dict(name='kani', path='kani/ + engine/kani_run.py', serves_properties=['C17', 'C19'], kind_free_text='Kani 0.68 proof harness crate (CBMC 6.11)'),
- dict(name='clifsym', path='engine/clifsym.py', serves_properties=['C04', 'C11'], kind_free_text='symbolic executor for the Cranelift IR text built by src/cranelift.rs'),
- dict(name='driver', path='driver/', serves_properties=['C01', 'C02', 'C05', 'C06'], kind_free_text='native replay driver (never a deciding step)'),
+ dict(name='clifsym', path='engine/clifsym.py', serves_properties=['C04', 'C08', 'C09', 'C11', 'C18'], kind_free_text='symbolic executor for the Cranelift IR text built by src/cranelift.rs'),
+ dict(name='driver', path='driver/', serves_properties=['C01', 'C02', 'C03', 'C04', 'C05', 'C06', 'C07', 'C08', 'C09', 'C10', 'C11', 'C12', 'C13', 'C14', 'C15', 'C16', 'C18', 'C19', 'C20'], kind_free_text='native replay driver (never a deciding step)'),
 ]
 NOTES = 'Solver-based checking of the real code: see DESIGN.md. Exit codes: 0 held, 1 reproduced violation, 2 inconclusive/machinery.'
 INTERP_NOTE = ('Trusted: rustc MIR as the meaning of the source; mirsym intrinsic table; z3; the reference semantics transcribed from the '
@@ -113,5 +113,12 @@ CHECKS = {
    technique='composition of the token sequences extracted from disassembler::to_insn_vec (C15) with the encoder model that C13 proves equivalent to assembler::encode, through the documented operand grammar; z3',
    text='For every assembler-expressible opcode and all field values: whenever the printed text is accepted, the assembled instruction has the same opcode and the same used fields (canonical form); with unused fields zero and a non-negative immediate (any 64-bit value for lddw) the text is accepted and yields the original bytes.',
    note='The grammar layer (combine) is an assumption here: the one place where a model stands in for code. xadd and tail_call are not expressible by the assembler (outside the first clause).'),
+ 'C20': dict(level='model_checking', engine='mirsym', design_ref='DESIGN.md 5/C20',
+   technique='product check: the same mirsym extraction is run on the rustc MIR of both feature configurations (std / --no-default-features) from the same symbolic state and z3 decides whether any outcome can differ; the no_std JitMemory::new gets the C12 obligations; bounded native complement through two builds of the driver',
+   text='For the interpreter (prelude + one iteration per opcode), the verifier (check_prog_len + one iteration per opcode byte), the disassembler (one iteration per opcode), assembler::encode (per instruction kind, 0..4 symbolic operands), the x86-64 JIT (prologue + one emitting iteration per opcode) and the VM wrapper methods of src/lib.rs (4 VM kinds x set_program/set_verifier/register_helper/register_allowed_memory/execute_program/jit_compile/execute_program_jit, caller-supplied executable memory present): '
+        'for every path pair with compatible conditions the two builds have the same outcome kind, return value incl. Err payload (constructor, kind, format template, arguments), registers, pc, frames, memory, access log, helper events, emitted bytes and code offset, engine arguments and final VM fields. '
+        'no_std JitMemory::new: same program/flags/helpers to both passes, pass 2 writes into the caller memory which is page aligned and at least the counted size, Err otherwise, no panic. '
+        'Native complement (about 10,000 comparisons): assembler texts incl. layout variants (this reaches the combine grammar), verifier verdicts and disassembly of accepted and damaged programs, interpreter and JIT runs of an address-free execution corpus, API call sequences on the four VM kinds.',
+   note='The combine grammar layer (easy_parse vs parse entry points) is reached only by the bounded native corpus, not by the solver (generic combinator code is outside the front ends here); error message TEXT of the assembler differs between builds by design (only Ok/Err and bytes are compared there). Helpers that exist only with std and Cranelift (std only) are outside the statement. Trusted: rustc MIR of both builds, z3; cfg-aware field naming scraped from the source.'),
 }
 NOT_APPLICABLE = {}
